@@ -22,6 +22,9 @@ TEXTS = [
     '"linux" == sys_platform', 'sys_platform == "linux"', 'sys_platform == "win32"', 'sys_platform != "linux"', '"linux" != sys_platform',
     'sys_platform == "linux" or sys_platform == "win32"', 'sys_platform == "win32" or sys_platform == "linux"',
     'sys_platform != "linux" and sys_platform != "win32"', 'sys_platform != "win32" and sys_platform != "linux"',
+    # groups one of which is a proper prefix / suffix / sub-list of the other
+    'sys_platform == "linux" or sys_platform == "win32" or sys_platform == "darwin"', 'sys_platform == "win32" or sys_platform == "darwin"',
+    'sys_platform != "linux" and sys_platform != "win32" and sys_platform != "darwin"', 'sys_platform != "linux" and sys_platform != "darwin"',
     'os_name == "nt" and sys_platform == "win32"', 'sys_platform == "win32" and os_name == "nt"',
     'os_name == "nt" or sys_platform == "win32"', 'sys_platform == "win32" or os_name == "nt"',
     "", "<empty>", "*",
